@@ -223,13 +223,13 @@ CHECKS["C19"] = {
 
 def unpack_items(tier):
     if tier == "quick":
-        cfg = [(1, 5, 5, 4), (2, 2, 2, 6)]
+        cfg = [(1, 4, 5, 4), (2, 2, 2, 6)]
     else:
         cfg = [(1, 7, 7, 16), (2, 4, 4, 16), (3, 2, 2, 16)]
     out = [{"id": "unpack-K%d-%dx%d" % (k, a, b), "entry": "HarnessUnpackSafety", "params": {"K": k, "nName": a, "nLink": b}, "shards": sh, "_w": 50} for (k, a, b, sh) in cfg]
     if tier == "quick":
-        seg = [("HarnessUnpackSeg", {"K": 1, "sName": 3, "sLink": 4}, 4), ("HarnessUnpackSeg", {"K": 2, "sName": 1, "sLink": 2}, 4),
-               ("HarnessUnpackStep", {"K": 1, "sName": 2, "sLink": 2, "sPre": 3}, 6)]
+        seg = [("HarnessUnpackSeg", {"K": 1, "sName": 2, "sLink": 4}, 6), ("HarnessUnpackSeg", {"K": 2, "sName": 1, "sLink": 2}, 8),
+               ("HarnessUnpackStep", {"K": 1, "sName": 2, "sLink": 1, "sPre": 2}, 8)]
     else:
         seg = [("HarnessUnpackSeg", {"K": 1, "sName": 4, "sLink": 5}, 16), ("HarnessUnpackSeg", {"K": 2, "sName": 3, "sLink": 4}, 16), ("HarnessUnpackSeg", {"K": 3, "sName": 2, "sLink": 3}, 16),
                ("HarnessUnpackStep", {"K": 1, "sName": 4, "sLink": 3, "sPre": 4}, 16), ("HarnessUnpackStep", {"K": 2, "sName": 3, "sLink": 3, "sPre": 3}, 16)]
@@ -245,7 +245,7 @@ CHECKS["C01"] = {
     "explanation": "entry sequences x names x link targets are symbolic; the monitor is the model filesystem's mutation log compared segment-wise with dst; natively: before/after snapshot of the arena around dst",
     "anchors": ["(*github.com/hashicorp/go-slug.Packer).Unpack", "github.com/hashicorp/go-slug/internal/unpackinfo.NewUnpackInfo", "(*github.com/hashicorp/go-slug.Packer).validSymlink",
                 "(github.com/hashicorp/go-slug/internal/unpackinfo.UnpackInfo).RestoreInfo"],
-    "bounds": {"quick": "raw byte names: K=1 entry name 0..5 bytes, link target 0..5 bytes; K=2: 0..2 / 0..2; 6 type flags, mode 9 free bits. Segment-structured (names of 1 free byte, segments name/../././empty, optional leading slash): K=1 name <=3 segments, target <=4; K=2 name 1, target <=2. Inductive step: destination already holding one arbitrary symlink (target <=3 segments, absolute or not) and maybe a directory, then one entry (name <=2 segments). dst=/w/d (absolute, clean) with sibling /w/d2, victim files and directory",
+    "bounds": {"quick": "raw byte names: K=1 entry name 0..4 bytes, link target 0..5 bytes; K=2: 0..2 / 0..2; 6 type flags, mode 9 free bits. Segment-structured (names of 1 free byte, segments name/../././empty, optional leading slash): K=1 name <=2 segments, target <=4; K=2 name 1, target <=2. Inductive step: destination already holding one arbitrary symlink (target <=2 segments, absolute or not) and maybe a directory, then one entry (name <=2 segments, target <=1). dst=/w/d (absolute, clean) with sibling /w/d2, victim files and directory",
                "thorough": "raw: K=1: 0..7 / 0..7; K=2: 0..4 / 0..4; K=3: 0..2 / 0..2; segments: K=1 (4,5), K=2 (3,4), K=3 (2,3); step: K=1 (name 4, pre-link 4), K=2 (3,3)"},
     "assumptions": A_COMMON + ["A-tar: archive/tar + gzip deliver the headers written (names without NUL); byte-level stream corruption is outside", "vfs: root privileges, ELOOP after 8 hops, closed world /w"],
     "groups": [
@@ -312,6 +312,108 @@ def unpack_items_c04(tier):
 CHECKS["C04"]["groups"].append(
     slug_group("unpack", ["harness/slug/unpack.go"], quick=unpack_items_c04("quick"), thorough=unpack_items_c04("thorough"),
                reach=["unpack-ok", "link-created"], sample_every=60))
-CHECKS["C04"]["bounds"]["quick"] += "; whole Unpack: K=1 entry name 0..5 / target 0..5 bytes, K=2 0..2 / 0..2, segment-structured names (<=3 segments) and targets (<=4 segments) for K=1, (1,2) for K=2"
+CHECKS["C04"]["bounds"]["quick"] += "; whole Unpack: K=1 entry name 0..4 / target 0..5 bytes, K=2 0..2 / 0..2, segment-structured names (<=2 segments) and targets (<=4 segments) for K=1, (1,2) for K=2"
 CHECKS["C04"]["bounds"]["thorough"] += "; whole Unpack as C01 thorough"
 CHECKS["C04"]["anchors"] += ["(*github.com/hashicorp/go-slug.Packer).Unpack"]
+
+
+CHECKS["C15"] = {
+    "registered": False,
+    "level_text": "Bounded model checking by symbolic execution of Unpack against an independently written reference interpreter of the entry list: for every sequence of K entries over a small path universe (10 spellings of 4 paths: leading slash, ./, doubled and trailing slashes), kinds file / directory / in-tree link / unrepresentable, arbitrary permission bits and times, a successful Unpack leaves exactly the prescribed tree (last entry wins, directories finalised after their contents) and an unrepresentable entry makes it fail.",
+    "level_note": PACK_NOTE + " Root privileges only: the permission-retry branch of Unpack (read-only file overwritten by an unprivileged user) is outside.",
+    "explanation": "entry order, repetition, spellings, modes and times symbolic; expected tree computed from the header list alone",
+    "anchors": ["(*github.com/hashicorp/go-slug.Packer).Unpack", "github.com/hashicorp/go-slug/internal/unpackinfo.NewUnpackInfo", "(github.com/hashicorp/go-slug/internal/unpackinfo.UnpackInfo).RestoreInfo",
+                "(github.com/hashicorp/go-slug/internal/unpackinfo.UnpackInfo).restoreDirectory", "(github.com/hashicorp/go-slug/internal/unpackinfo.UnpackInfo).restoreNormal"],
+    "bounds": {"quick": "K=1 and K=2 entries, 10 name spellings, 4 kinds (4 link targets, 4 unrepresentable flags), mode 9 free bits, mtime 6 free bits", "thorough": "K=3"},
+    "assumptions": PACK_ASSUME + ["well-formedness (assumed): no '..' in names, link targets in-tree, a path is not both a directory and a non-directory, links are not repeated"],
+    "groups": [slug_group("c15", ["harness/slug/unpack.go", "harness/slug/c15.go"],
+                          quick=[{"id": "c15-K1", "entry": "HarnessC15", "params": {"K": 1}}, {"id": "c15-K2", "entry": "HarnessC15", "params": {"K": 2}, "shards": 8, "_w": 50}],
+                          thorough=[{"id": "c15-K2", "entry": "HarnessC15", "params": {"K": 2}, "shards": 4}, {"id": "c15-K3", "entry": "HarnessC15", "params": {"K": 3}, "shards": 16}],
+                          reach=["well-formed", "unsupported-type"], sample_every=25)],
+}
+
+
+CHECKS["C19"]["groups"].append(
+    slug_group("rules", ["harness/slug/unpack.go", "harness/slug/c19rules.go"],
+               quick=[{"id": "rules-%d" % n, "entry": "HarnessC19Rules", "params": {"nRules": n}, "no_panic": True} for n in (1, 2, 3)],
+               thorough=[{"id": "rules-%d" % n, "entry": "HarnessC19Rules", "params": {"nRules": n}, "no_panic": True, "shards": 4} for n in (3, 4, 5)],
+               reach=["parsed"], sample_every=25))
+
+CHECKS["C16"] = {
+    "registered": False,
+    "level_text": "Bounded model checking by symbolic execution of Pack twice in one run: once as Pack(\"/w/s\") and once with a symbolic spelling of the same directory (every byte string up to the bound that the model filesystem resolves to /w/s: relative, absolute, dot segments, doubled and trailing slashes, by way of root symlinks) from four working directories, or after an earlier ignore-file parse / Pack; the two header lists (names, order, types, modes, times, targets, bodies) must be equal.",
+    "level_note": PACK_NOTE + " Concurrent Pack calls (goroutine schedules, data races) are not addressable by this technique and are not claimed.",
+    "explanation": "spelling of the source path and working directory symbolic; history = 12 concrete rule files parsed before; outputs compared entry by entry",
+    "anchors": ["(*github.com/hashicorp/go-slug.Packer).Pack", "(*github.com/hashicorp/go-slug.Packer).packWalkFn$1", "github.com/hashicorp/go-slug.parseIgnoreFile", "github.com/hashicorp/go-slug/internal/ignorefiles.readRules"],
+    "bounds": {"quick": "tree N=1..2 symbolic nodes; spelling 1..5 free bytes x 4 working directories x option sets plain/ignore; history: 12 rule files", "thorough": "spelling 1..7 bytes; N=2; 4 option sets"},
+    "assumptions": PACK_ASSUME + ["schedules (concurrent Pack calls) are outside the technique"],
+    "groups": [slug_group("c16", ["harness/slug/unpack.go", "harness/slug/pack.go", "harness/slug/c16.go"],
+                          quick=[{"id": "spell-N1-5-o%d" % o, "entry": "HarnessC16Spelling", "params": {"N": 1, "nSrc": 5, "opts": o}, "shards": 4, "_w": 30} for o in (0, 2)]
+                          + [{"id": "spell-N2-4-o0", "entry": "HarnessC16Spelling", "params": {"N": 2, "nSrc": 4, "opts": 0}, "shards": 4, "_w": 30},
+                             {"id": "hist-N1", "entry": "HarnessC16History", "params": {"N": 1}, "_w": 20}, {"id": "hist-N2", "entry": "HarnessC16History", "params": {"N": 2}, "shards": 2, "_w": 40}],
+                          thorough=[{"id": "spell-N1-7-o%d" % o, "entry": "HarnessC16Spelling", "params": {"N": 1, "nSrc": 7, "opts": o}, "shards": 16} for o in (0, 1, 2, 3)]
+                          + [{"id": "spell-N2-6-o0", "entry": "HarnessC16Spelling", "params": {"N": 2, "nSrc": 6, "opts": 0}, "shards": 16}, {"id": "hist-N2", "entry": "HarnessC16History", "params": {"N": 2}, "shards": 8}],
+                          reach=["spelling-denotes-src", "history-done"], sample_every=25)],
+}
+
+
+CHECKS["C04"].update({
+    "level_text": "Bounded model checking by symbolic execution of validSymlink alone (all byte strings as entry name and target) and of the whole Unpack over the model filesystem (entry sequences with raw and segment-structured names / targets): every accepted target stays inside the root segment-wise, every rejection is an IllegalSlugError, and after Unpack every symlink under dst, followed physically through other links (lexically past the first missing component), ends inside dst.",
+    "level_note": PACK_NOTE + " One open known finding (KF-C04-dotdot-after-link, lexical vs physical '..') excludes its syntactic class.",
+})
+for _p in ("C01", "C02", "C04", "C05", "C15", "C16", "C19", "C20"):
+    CHECKS[_p]["registered"] = True
+CHECKS["C19"]["bounds"]["quick"] += "; Pack with dereferencing over trees N<=2 (unbounded recursion = violation); rule files of 1..3 arbitrary bytes"
+CHECKS["C19"]["bounds"]["thorough"] += "; Pack all option sets N<=3; rule files 3..5 bytes"
+CHECKS["C19"]["anchors"] += ["(*github.com/hashicorp/go-slug.Packer).Pack", "(*github.com/hashicorp/go-slug.Packer).resolveExternalLink", "github.com/hashicorp/go-slug/internal/ignorefiles.readRules"]
+
+
+def ign_group(name, harness, quick, thorough, **kw):
+    g = {"name": name, "pkg": "./internal/ignorefiles",
+         "sym_overlays": RT_SYM + ["harness/common/ref_ignore.go"] + harness,
+         "native_overlays": RT_NAT + ["rt/native_noenv.go", "native/regexref_native.go", "harness/common/ref_ignore.go"] + harness,
+         "quick": quick, "thorough": thorough}
+    g.update(kw)
+    return g
+
+
+def c03_line_items(n, npaths, batch):
+    total = 12 ** n
+    out = []
+    for npath in npaths:
+        for start in range(0, total, batch):
+            out.append({"id": "lines-n%d-p%d-%d" % (n, npath, start), "entry": "HarnessC03Lines", "params": {"n": n, "from": start, "to": min(total, start + batch), "nPath": npath}, "_w": batch})
+    return out
+
+
+CHECKS["C03"] = {
+    "registered": False,
+    "level_text": "Bounded model checking: for every rule line of the enumerated family (all strings up to n characters over {a b . * ? / ! + ( | # space}) and 16 multi-line rule files, the real parse / translate-to-regexp / compile / evaluate code is compared with a reference built from the documented rule language, over every ASCII archive path of the stated lengths (symbolic). The compiled regular expression is turned into one solver term by a Thompson simulation of the program regexp/syntax compiles; the reference glob is a dynamic-programming term; z3 decides their equivalence.",
+    "level_note": "Trusted: go/ssa, gosym, z3, the regexp encoding (Thompson simulation of the real compiled program; ASCII paths), text/scanner and bufio.Scanner run from SSA.",
+    "explanation": "rule lines enumerated, path symbolic; equivalence of Excludes() with the documented semantics (defaults first, last match wins, negation, anchoring, directory suffix, *, ?, **)",
+    "anchors": ["github.com/hashicorp/go-slug/internal/ignorefiles.readRules", "(*github.com/hashicorp/go-slug/internal/ignorefiles.rule).compile", "(*github.com/hashicorp/go-slug/internal/ignorefiles.rule).match",
+                "(*github.com/hashicorp/go-slug/internal/ignorefiles.Ruleset).Excludes"],
+    "bounds": {"quick": "rule lines of 1..2 characters (156 lines) x paths of 1..5 ASCII bytes; lines of 3 characters x paths of 3 bytes; 16 multi-line files x paths of 2..5 bytes",
+               "thorough": "lines up to 3 characters x paths up to 7 bytes; 4 characters x paths up to 4; files x paths up to 8"},
+    "assumptions": A_COMMON + ["paths are printable ASCII without a leading or doubled slash", "'[' character classes and backslash escapes are not part of the documented rule language and are left out of the family"],
+    "groups": [ign_group("eval", ["harness/ignorefiles/c03.go"],
+                         quick=c03_line_items(1, [1, 2, 3, 4, 5], 12) + c03_line_items(2, [1, 2, 3, 4, 5], 36) + c03_line_items(3, [3], 144)
+                         + [{"id": "file-%02d-p%d" % (f, n), "entry": "HarnessC03Files", "params": {"file": f, "nPath": n}} for f in range(16) for n in (2, 3, 4, 5)],
+                         thorough=c03_line_items(2, [6, 7], 24) + c03_line_items(3, [1, 2, 3, 4, 5, 6], 72) + c03_line_items(4, [3, 4], 288)
+                         + [{"id": "file-%02d-p%d" % (f, n), "entry": "HarnessC03Files", "params": {"file": f, "nPath": n}} for f in range(16) for n in (6, 7, 8)],
+                         reach=["evaluated", "batch-done"], sample_every=5)],
+}
+
+
+CHECKS["C03"]["groups"].append(
+    dict(slug_group("walk", ["harness/slug/unpack.go", "harness/slug/pack.go", "harness/common/ref_ignore.go", "harness/slug/c03walk.go"],
+               quick=[{"id": "walk-f%02d-i%d" % (f, ig), "entry": "HarnessC03Walk", "params": {"file": f, "ignore": ig}} for f in range(16) for ig in (1,)] + [{"id": "walk-f00-i0", "entry": "HarnessC03Walk", "params": {"file": 0, "ignore": 0}}],
+               thorough=[{"id": "walk-f%02d-i%d" % (f, ig), "entry": "HarnessC03Walk", "params": {"file": f, "ignore": ig}} for f in range(16) for ig in (0, 1)],
+               reach=["walked"], sample_every=10)))
+CHECKS["C03"]["groups"][-1]["native_overlays"] = CHECKS["C03"]["groups"][-1]["native_overlays"] + ["native/regexref_native.go"]
+CHECKS["C03"]["anchors"] += ["(*github.com/hashicorp/go-slug.Packer).packWalkFn$1", "github.com/hashicorp/go-slug.matchIgnoreRules"]
+CHECKS["C03"]["bounds"]["quick"] += "; walking layer: Pack over the tree d/, d/f, d/e/, d/e/g, h (names chosen from short lists incl. .terraform, .git, modules, a+b: 96 combinations) with 16 rule files instantiated with those names, ignore processing on (and off for one file)"
+CHECKS["C03"]["bounds"]["thorough"] += "; walking layer with ignore on and off for all 16 rule files"
+
+CHECKS["C03"]["registered"] = True
+CHECKS["C03"]["level_note"] += " The walking layer enumerates concrete names (the rule text must be concrete to be compiled) and runs the real Pack over the model filesystem; the bundle builder's deletion walk is covered under C10."
